@@ -134,15 +134,27 @@ Definition op_wnows (o : op) : list time :=
   | _ => []
   end.
 
+(* the written times of one step increase STRICTLY (only a Publish batch has more than one):
+   every message of a batch gets its own, later publish time. This is the hypothesis
+   [T_C05.quiet] of the ordering theorem ("strictly_increasing (op_wnows o)"), checked here on
+   the implementation: with equal publish times inside a batch "earlier published" no longer
+   orders the batch and the predecessor query ties. *)
+Fixpoint increasing (l : list time) : bool :=
+  match l with
+  | a :: ((b :: _) as r) => (a <? b) && increasing r
+  | _ => true
+  end.
+
 Fixpoint nondecreasing (l : list time) : bool :=
   match l with
   | a :: ((b :: _) as r) => (a <=? b) && nondecreasing r
   | _ => true
   end.
 
-Definition times_legal (lo hi : time) (o : op) : bool :=
+(* (a rejected request wrote nothing: its times are placeholders, only the window is checked) *)
+Definition times_legal (lo hi : time) (o : op) (rejected : bool) : bool :=
   let ws := op_wnows o in
-  forallb (fun w => (lo <=? w) && (w <=? hi)) ws && nondecreasing ws.
+  forallb (fun w => (lo <=? w) && (w <=? hi)) ws && (if rejected then nondecreasing ws else increasing ws).
 
 Definition nonempty {A} (mk : list A -> mismatch) (l : list A) : list mismatch :=
   match l with [] => [] | _ => [mk l] end.
@@ -175,7 +187,7 @@ Definition check_step (pre : state) (o : obs) : list mismatch :=
   let r := step pre (o_lo o) (o_op o) in
   let m := r_state r in
   let p := o_post o in
-  (if times_legal (o_lo o) (o_hi o) (o_op o) then [] else [MTime]) ++
+  (if times_legal (o_lo o) (o_hi o) (o_op o) (match o_resp o with RErr _ => true | _ => false end) then [] else [MTime]) ++
   map MNote (r_notes r) ++
   (if resp_eqb (r_resp r) (o_resp o) then [] else [MResp]) ++
   nonempty MTopics (diff_table t_id topic_eqb (topics m) (topics p)) ++
